@@ -27,3 +27,29 @@ Theorem C18_source : forall ts_parse : str -> option cfile,
   exists f', ts_parse (roundtrip f) = Some f' /\ canonical_file f' = true.
 Proof. exact (fun ts _ Hstable => P20.C18_source ts Hstable). Qed.
 Print Assumptions C18_source.
+
+From Coq Require Import ZArith.
+From F0 Require Import GapLib.
+From Dyn Require Import GapGen GapGenProps.
+
+(* over the REGENERATED gap helpers of expressions/trivia.py (tools/gap2v.py, Dyn/GapGenProps.v): whatever gap with a line break is
+   re-emitted through separator_from_layout comes out as one line break, or two when the gap held a blank line, followed by spaces
+   only — no tab, no carriage return, never more than one blank line — for every gap, indent and inline separator *)
+Theorem C18_separators_normal_form : forall g ind isep,
+  has_nl g = true -> sep_nf (separator_from_layout (layout_from_gap g) ind isep) = true.
+Proof. exact separator_normal_form. Qed.
+Print Assumptions C18_separators_normal_form.
+
+Theorem C18_separator_shape : forall g ind isep,
+  separator_from_layout (layout_from_gap g) ind isep =
+  if has_nl g then (if has_empty_line g then [LF; LF] else [LF]) ++ sp (indent_from_gap g) else isep.
+Proof. exact separator_from_gap. Qed.
+Print Assumptions C18_separator_shape.
+
+(* the two implementations of "this gap holds a blank line" (regex on the text, scan over byte offsets of the whole buffer) agree on
+   every span of every buffer, and both are the model's has_empty_line *)
+Theorem C18_blank_line_detectors_agree : forall pre g post,
+  _gap_has_empty_line_offsets (pre ++ g ++ post) (Z.of_nat (List.length pre)) (Z.of_nat (List.length pre + List.length g)) None
+  = Some (gap_has_empty_line g) /\ gap_has_empty_line g = has_empty_line g.
+Proof. intros pre g post. split; [apply offsets_twin_agrees | apply gap_has_empty_line_eq]. Qed.
+Print Assumptions C18_blank_line_detectors_agree.
